@@ -50,4 +50,14 @@ if [ $rc -ne 0 ]; then
   echo "BUILD-ERROR property=$ID (overlay or check binary did not build from the current tree)"
   exit 2
 fi
+if [ -f checks/$id/RACE ]; then
+  # the driver process of a race build logs detector reports to its own file
+  export VERIF_RACE_BUILD=1
+  export VERIF_RACE_LOG=/dev/shm/verif-race-driver-$$
+  export GORACE="log_path=$VERIF_RACE_LOG halt_on_error=0 exitcode=0"
+  $BIN "$TIER" "$@"
+  rc=$?
+  rm -f $VERIF_RACE_LOG.*
+  exit $rc
+fi
 exec $BIN "$TIER" "$@"
